@@ -51,6 +51,13 @@ def tlc_emit(rep, label, acts, depth, simulate=None, seed=None, sim_depth=None, 
     recs = res.json_lines()
     if not recs:
         raise MachineryError(f"TLC emitted no transition for {label}")
+    # vacuity gate: every enabled action of the alphabet must have been taken at least once
+    norm = {"dssetbad": "dsset", "dsupdatebad": "dsupdate"}
+    taken = {norm.get(r["a"]["op"], r["a"]["op"]) for r in recs if "a" in r}
+    missing = set(acts) - taken
+    if missing and not simulate:
+        raise MachineryError(f"vacuous exploration {label}: actions never taken: {sorted(missing)}")
+    rep.part(label, actions_taken={k: sum(1 for r in recs if "a" in r and norm.get(r["a"]["op"], r["a"]["op"]) == k) for k in sorted(taken)})
     return recs
 
 
